@@ -1,6 +1,7 @@
 """All harness binaries: (name, sources, build keyword arguments)."""
 TARGETS = [
     ("verdrv", ["verdrv.cpp"], {}),
+    ("permdrv", ["permdrv.cpp"], {}),
 ]
 BY_NAME = {t[0]: t for t in TARGETS}
 
